@@ -22,7 +22,7 @@ RULE = ("Random tier: Hypothesis draws a size n (1..70 quick, ..200 thorough, bi
 ASSUMPTIONS = ["indices are integers or FRACTIONAL floats k+0.5 (which are outside 0..n-1 by definition and must be refused); "
                "values are integers / bools; other types are outside the property"]
 
-VALUES = [0, 1, True, False, 2, -1, 3]
+VALUES = [0, 1, True, False, 2, -1, 3, 0.5, 1.5, -0.5]
 
 
 def budget(tier):
@@ -39,7 +39,10 @@ def strategy(tier):
         big = draw(st.integers(0, 39)) == 0
         if big:  # 1 case in 40: sizes beyond any block size an implementation might process at once (few operations then)
             n = draw(st.one_of(st.sampled_from([511, 512, 513, 4088, 4089, 4096, 4097, 8191, 8192, 8193, 10000, 32768, 65537]),
-                               st.integers(300, 70000)))
+                               st.integers(300, 70000),
+                               # byte lengths at / next to a power of two (whole-block arithmetic, empty remainders); the larger ones up to
+                               # 128 KiB / 1 MiB are enumerated by the "block_sizes" slice
+                               st.tuples(st.integers(10, 13), st.sampled_from([-9, -8, -7, -1, 0, 1, 8])).map(lambda t: 8 * 2 ** t[0] + t[1])))
         top = 8 * math.ceil(n / 8)
         hot = draw(st.lists(st.one_of(st.integers(0, n - 1), st.integers(max(0, n - 70), n - 1)), min_size=1, max_size=5))
         idx = st.one_of(
@@ -56,7 +59,11 @@ def strategy(tier):
             st.tuples(st.sampled_from(["clearall", "str", "count"])),
         )
         ops = draw(st.lists(op, min_size=1, max_size=8 if big else 60))
-        return {"n": n, "ops": [list(o) for o in ops]}
+        # a SECOND live Bitarray of another size: every operation names its target by parity of a drawn number, the read-only
+        # queries of the agreement step run on one array right after the other
+        n2 = draw(st.sampled_from([0, 0, 1, 3, 8, 13, 64])) if not big else draw(st.sampled_from([0, 5]))
+        who = draw(st.lists(st.integers(0, 1), min_size=len(ops), max_size=len(ops))) if n2 else []
+        return {"n": n, "ops": [list(o) for o in ops], "n2": n2, "who": who}
 
     return case()
 
@@ -69,7 +76,19 @@ def exhaustive(tier):
             for state in range(2 ** n):
                 yield {"n": n, "state": state, "exh": True}
 
-    return [("all_states_all_ops_n<=%d" % top, gen)]
+    kmax = 17 if tier == "quick" else 20
+
+    def blocks():
+        # byte lengths 2^k (k = 10..kmax) and their neighbours, one fixed history each: writes at both ends and the middle, the
+        # whole-array operations (count, clear, string), writes again - block-wise implementations meet empty / full remainders here
+        for k in range(10, kmax + 1):
+            for off in (-9, -8, -7, -1, 0, 1, 8):
+                n = 8 * 2 ** k + off
+                yield {"n": n, "n2": 0, "who": [],
+                       "ops": [["set", 0], ["set", n - 1], ["assign", n // 2, 1], ["count"], ["clearall"], ["set", 1], ["assign", n - 1, 1],
+                               ["clear", 1], ["str"], ["assign", n, 1]]}
+
+    return [("all_states_all_ops_n<=%d" % top, gen), ("block_sizes_2^10..2^%d_bytes" % kmax, blocks)]
 
 
 def _build(Bitarray, n, bits, ctx):
@@ -80,7 +99,7 @@ def _build(Bitarray, n, bits, ctx):
     return b
 
 
-def _agree(ctx, b, model, what):
+def _agree(ctx, b, model, what, light=False):
     n = len(model)
     s = "".join(str(x) for x in model)
     def _diff():
@@ -90,6 +109,8 @@ def _agree(ctx, b, model, what):
     ctx.check("C20.state", b.as_string() == s, _diff)
     ctx.check("C20.state", b.num_bits_set() == sum(model), f"{what}: num_bits_set")
     ctx.check("C20.state", b.size == n and b.size_bytes == math.ceil(n / 8), f"{what}: size")
+    if light:  # very large arrays: the per-position sweep runs at the start and the end of the history only
+        return
     ctx.check("C20.state", [b.check_bit(i) for i in range(n)] == model, f"{what}: check_bit sweep")
     it = list(b)  # iterating a Bitarray (the sequence protocol) yields exactly its n bits
     ctx.check("C20.state", it == model, lambda: f"{what}: list(bitarray) has {len(it)} entries / differs from the {n} model bits")
@@ -130,12 +151,12 @@ def _apply(ctx, b, model, op):
         return kind == "clearall", False
     idx = op[1]
     val = op[2] if kind == "assign" else None
-    if isinstance(idx, float):
+    if isinstance(idx, float) and (kind != "assign" or not isinstance(val, float) or True):
         # a fractional position is never one of 0..n-1: it must be refused (IndexError / TypeError / ValueError), nothing may change
         status, r = ctx.lib("C20.rejects", _do(b, kind, idx, val), allow=(IndexError, ValueError, TypeError))
         ctx.check("C20.rejects", status == "exc", f"{kind} at the fractional index {idx!r} on size {n} was accepted (returned {r!r})")
         return False, True
-    valid = 0 <= idx < n and (kind != "assign" or val in (0, 1))
+    valid = 0 <= idx < n and (kind != "assign" or (val in (0, 1) and not isinstance(val, float)))
 
     def doit():
         if kind == "set":
@@ -194,14 +215,32 @@ def run_case(case, ctx):
         return
     b = Bitarray(n)
     model = [0] * n
+    n2 = case.get("n2") or 0
+    who = case.get("who") or []
+    b2 = Bitarray(n2) if n2 else None
+    model2 = [0] * n2
+    huge = n > 100000
     _agree(ctx, b, model, "fresh")
     wrote = rejected = False
-    for op in case["ops"]:
-        w, r = _apply(ctx, b, model, op)
+    for j, op in enumerate(case["ops"]):
+        second = bool(n2) and j < len(who) and who[j] == 1
+        if second:
+            # the same operation on the second array (indices are taken as they are: mostly out of range there, some valid)
+            w, r = _apply(ctx, b2, model2, op)
+            ctx.op("second", *op)
+        else:
+            w, r = _apply(ctx, b, model, op)
+            ctx.op(*op)
         wrote |= w
         rejected |= r
-        ctx.op(*op)
-        _agree(ctx, b, model, f"after {op}")
+        _agree(ctx, b, model, f"after {op}", light=huge and j + 1 < len(case["ops"]))
+        if n2:
+            _agree(ctx, b2, model2, f"second array (size {n2}) after {op}{' on it' if second else ' on the first'}")
+            _agree(ctx, b, model, f"first array again after {op}", light=huge)
+    if n2:
+        ctx.feat("two_live_bitarrays")
+    if n % 8 == 0 and (n // 8) & (n // 8 - 1) == 0 and n >= 8192:
+        ctx.feat("byte_length_power_of_two>=1KiB")
     ctx.feat("n%%8=%d" % (n % 8))
     ctx.feat("with_write" if wrote else "no_write")
     ctx.feat("with_reject" if rejected else "no_reject")
